@@ -13,7 +13,7 @@ import numpy as np
 
 from harness import core
 
-INVARIANTS = ["InstancesOnLattice", "TablesArePhases", "PreloadEqualsDirect", "BaselineSymmetries",
+INVARIANTS = ["InstancesOnLattice", "PhaseIsPowerOfMinusI", "TablesArePhases", "PreloadEqualsDirect", "BaselineSymmetries",
               "AdjointIsConjugateTranspose", "AdjointOnBasisPairs", "SparseSkipIsExact", "PositiveOnlyExactOnNonNegative",
               "TransformIsOdd", "NormalEquationsAreGramProducts"]
 
@@ -44,6 +44,8 @@ SCALES = [(1.0, 1.0), (0.5, 0.5), (0.1, 0.1), (0.05, 0.2), (2.0, 0.25), (1.0 / 3
 # power-of-two exponents for the value groups (image / matrix / visibilities): 2^-10 is below any plausible sparsity cut
 EXPS = [0, -10, 3, -1]
 TOL = 1e-9
+# trace validation runs one single-worker JVM per chunk, many at a time: keep each of them small
+JVM_ENV = {"JAVA_TOOL_OPTIONS": "-XX:ParallelGCThreads=2 -XX:CICompilerCount=2 -Xmx3g"}
 CLIP = 2 ** 30
 
 
@@ -184,9 +186,11 @@ def records_for_group(g, seed=0):
 
     recs.append(_call(new("tables", "class", True, re=[], im=[]),
                       lambda: tables_fields(transformer(True).preload_real_transforms, transformer(True).preload_imag_transforms)))
-    recs.append(_call(new("tables", "util", True, re=[], im=[]),
-                      lambda: tables_fields(tu.preload_real_transforms(grid_radians=grid_rad, uv_wavelengths=uv),
-                                            tu.preload_imag_transforms(grid_radians=grid_rad, uv_wavelengths=uv))))
+    util = bool(g.get("util", True))
+    if util:
+        recs.append(_call(new("tables", "util", True, re=[], im=[]),
+                          lambda: tables_fields(tu.preload_real_transforms(grid_radians=grid_rad, uv_wavelengths=uv),
+                                                tu.preload_imag_transforms(grid_radians=grid_rad, uv_wavelengths=uv))))
 
     for ci, call in enumerate(g["calls"]):
         act, inp = call["act"], call["inp"]
@@ -217,13 +221,15 @@ def records_for_group(g, seed=0):
                             d["shape_ok"] = False
                         return d
                     recs.append(_call(new("vis", "class", pre, img=img, stored=stored, out=[]), f))
-            recs.append(_call(new("vis", "util", True, img=img, stored="slim", out=[]),
-                              lambda: vis_fields(tu.visibilities_via_preload_jit_from(
-                                  image_1d=slim.copy(),
-                                  preloaded_reals=tu.preload_real_transforms(grid_radians=grid_rad, uv_wavelengths=uv),
-                                  preloaded_imags=tu.preload_imag_transforms(grid_radians=grid_rad, uv_wavelengths=uv)))))
-            recs.append(_call(new("vis", "util", False, img=img, stored="slim", out=[]),
-                              lambda: vis_fields(tu.visibilities_jit(image_1d=slim.copy(), grid_radians=grid_rad, uv_wavelengths=uv))))
+            if util:
+                recs.append(_call(new("vis", "util", True, img=img, stored="slim", out=[]),
+                                  lambda: vis_fields(tu.visibilities_via_preload_jit_from(
+                                      image_1d=slim.copy(),
+                                      preloaded_reals=tu.preload_real_transforms(grid_radians=grid_rad, uv_wavelengths=uv),
+                                      preloaded_imags=tu.preload_imag_transforms(grid_radians=grid_rad, uv_wavelengths=uv)))))
+                recs.append(_call(new("vis", "util", False, img=img, stored="slim", out=[]),
+                                  lambda: vis_fields(tu.visibilities_jit(image_1d=slim.copy(), grid_radians=grid_rad,
+                                                                         uv_wavelengths=uv))))
         elif act == "image":
             v = [[int(a), int(b)] for a, b in inp["v"]]
             s = 2.0 ** e1
@@ -248,7 +254,8 @@ def records_for_group(g, seed=0):
                     return {"shape_ok": False}
                 a, o1 = _ints(im, s)
                 return {"out": a, "off": o1}
-            recs.append(_call(new("image", "util", False, v=v, out=[], native=[]), fu))
+            if util:
+                recs.append(_call(new("image", "util", False, v=v, out=[], native=[]), fu))
         elif act == "tmm":
             m = [[int(x) for x in row] for row in inp["m"]]
             J = len(m[0])
@@ -264,14 +271,15 @@ def records_for_group(g, seed=0):
             for pre in (True, False):
                 recs.append(_call(new("tmm", "class", pre, m=m, out=[]),
                                   lambda pre=pre: tmm_fields(transformer(pre).transform_mapping_matrix(mapping_matrix=mf.copy()))))
-            recs.append(_call(new("tmm", "util", True, m=m, out=[]),
-                              lambda: tmm_fields(tu.transformed_mapping_matrix_via_preload_jit_from(
-                                  mapping_matrix=mf.copy(),
-                                  preloaded_reals=tu.preload_real_transforms(grid_radians=grid_rad, uv_wavelengths=uv),
-                                  preloaded_imags=tu.preload_imag_transforms(grid_radians=grid_rad, uv_wavelengths=uv)))))
-            recs.append(_call(new("tmm", "util", False, m=m, out=[]),
-                              lambda: tmm_fields(tu.transformed_mapping_matrix_jit(mapping_matrix=mf.copy(), grid_radians=grid_rad,
-                                                                                   uv_wavelengths=uv))))
+            if util:
+                recs.append(_call(new("tmm", "util", True, m=m, out=[]),
+                                  lambda: tmm_fields(tu.transformed_mapping_matrix_via_preload_jit_from(
+                                      mapping_matrix=mf.copy(),
+                                      preloaded_reals=tu.preload_real_transforms(grid_radians=grid_rad, uv_wavelengths=uv),
+                                      preloaded_imags=tu.preload_imag_transforms(grid_radians=grid_rad, uv_wavelengths=uv)))))
+                recs.append(_call(new("tmm", "util", False, m=m, out=[]),
+                                  lambda: tmm_fields(tu.transformed_mapping_matrix_jit(mapping_matrix=mf.copy(), grid_radians=grid_rad,
+                                                                                       uv_wavelengths=uv))))
         elif act == "inv":
             m = [[int(x) for x in row] for row in inp["m"]]
             v = [[int(a), int(b)] for a, b in inp["v"]]
@@ -414,8 +422,11 @@ def describe(rec):
     return s
 
 
-def validate(ctx, records, tag, chunk=1500):
+def validate(ctx, records, tag, chunk=None):
     import concurrent.futures as cf
+
+    if chunk is None:  # at most 16 JVMs at a time, each with enough records to amortise its start
+        chunk = min(4000, max(800, -(-len(records) // 16)))
 
     slim = []
     for n, r in enumerate(records):
@@ -428,7 +439,7 @@ def validate(ctx, records, tag, chunk=1500):
 
     def one(args):
         k, ch = args
-        res, rej = ctx.validate_trace("Trace_Dft", TRACE_CFG, ch, tag=f"{tag}-{k}", timeout=3000)
+        res, rej = ctx.validate_trace("Trace_Dft", TRACE_CFG, ch, tag=f"{tag}-{k}", timeout=3000, env=JVM_ENV)
         return rej
 
     with cf.ThreadPoolExecutor(max_workers=min(16, len(chunks) or 1)) as ex:
@@ -447,47 +458,78 @@ def validate(ctx, records, tag, chunk=1500):
 # --------------------------------------------------------------------------------------------
 def run(ctx):
     quick = ctx.quick
+    small = [(1, 1), (2, 2), (2, 3), (3, 3)]
     if quick:
-        runs = [("wide", ALL_SHAPES, [(0, 0)], list(range(-3, 4)), 1, "few", False),
-                ("deep", [(1, 1), (2, 2), (2, 3), (3, 3)], [(0, 0), (2, -2)], [0, 1, -2], 3, "few", False)]
+        runs = [("wide", [(1, 1), (1, 2), (2, 1), (2, 2), (3, 2), (3, 3)], [(0, 0)], list(range(-2, 3)), 1, "few", False),
+                ("deep", [(2, 2), (3, 3)], [(2, -2)], [0, 1], 3, "two", False)]
         n_random = 120
+        util_every = 4
     else:
-        runs = [("wide", ALL_SHAPES, [(0, 0), (2, -2), (1, 1)], list(range(-3, 4)), 1, "ends", True),
-                ("pairs", ALL_SHAPES, [(0, 0)], list(range(-2, 3)), 2, "few", False),
-                ("deep", ALL_SHAPES, [(0, 0), (-1, 0)], [0, 1, -2], 3, "few", True)]
+        runs = [("wide", ALL_SHAPES, [(0, 0)], list(range(-3, 4)), 1, "ends", False),
+                ("rich", small, [(1, 1)], list(range(-2, 3)), 1, "few", True),
+                ("pairs", small + [(3, 2)], [(0, 0)], list(range(-2, 3)), 2, "two", False),
+                ("deep", ALL_SHAPES, [(0, 0), (-1, 0)], [0, 1], 3, "two", False)]
         n_random = 1500
+        util_every = 3
     ctx.bounds = {"tlc_runs": [{"name": r[0], "shapes": r[1], "origins_half_px": r[2], "multipliers": r[3], "max_baselines": r[4],
                                 "masks": r[5], "rich_inputs": r[6]} for r in runs],
                   "values": "images, matrices -2..2; visibilities Gaussian integers |.|<=2; noise 2^-1..2^1 per part",
                   "random_transformers": n_random, "random_max_side": 6, "random_max_baselines": 8,
                   "random_values": "images -8..8, matrices -4..4 (1-4 columns), visibilities -5..5, noise parts 2^-2..2^2",
-                  "pixel_scales": SCALES, "value_scales_log2": EXPS, "alpha_tolerance": TOL}
-    groups = []
+                  "pixel_scales": SCALES, "value_scales_log2": EXPS, "alpha_tolerance": TOL,
+                  "util_functions_replayed_for_every_nth_transformer": util_every}
+    ctx.exhaustive = True
+    total = {"groups": 0, "calls": 0, "records": 0}
+    salt = [0]
+
+    pending = []
+
+    def replay_and_judge(groups, tag, count=True, last=False):
+        """S->C replay of a batch of transformers, then C->S judgement of everything they returned."""
+        for g in groups:
+            if "salt" not in g:
+                g["salt"] = salt[0]
+                g["util"] = salt[0] % util_every == 0
+                salt[0] += 1
+        step = 4000
+        for k0 in range(0, len(groups), step):
+            part = groups[k0: k0 + step]
+            batch = 8
+            outs = core.pmap(_many, [(part[k: k + batch], ctx.seed) for k in range(0, len(part), batch)])
+            recs = [r for o in outs for r in o]
+            if len(ctx.samples) < 5 and recs:
+                ctx.sample({"record": {k: v for k, v in recs[len(recs) // 2].items() if k not in ("exc", "id")}})
+            total["records"] += len(recs)
+            if quick:  # one judgement phase for everything (all JVMs side by side)
+                pending.extend(recs)
+            else:
+                validate(ctx, recs, f"{tag}-{k0}")
+        if quick and last:
+            validate(ctx, pending, "C13-all")
+        if count:
+            total["groups"] += len(groups)
+            total["calls"] += sum(len(g["calls"]) for g in groups)
+
     for name, shapes, origins, mult, maxb, mode, rich in runs:
         insts, res = enumerate_machine(ctx, f"MC_Dft_{name}", shapes, origins, mult, maxb, mode, rich)
         gs = group_calls(insts)
+        for g in gs:
+            del g["salt"]
         if len(gs) != res.init_states:
             raise core.MachineryError(f"{name}: {len(gs)} transformers dumped, TLC counted {res.init_states}")
         ctx.note(f"TLC {name}: {res.init_states} transformers, {len(insts)} calls, {res.distinct} states, invariants {len(INVARIANTS)}")
-        groups.extend(gs)
         if len(ctx.samples) < 2:
             ctx.sample({"dumped_call": insts[len(insts) // 2]})
-    for n, g in enumerate(groups):
-        g["salt"] = n
-    ctx.exhaustive = True
+        del insts
+        replay_and_judge(gs, f"C13-{name}")
+    ctx.replayed = total["calls"]
     rng = np.random.default_rng(ctx.seed)
     rnd = random_groups(rng, n_random)
-    n_calls = sum(len(g["calls"]) for g in groups)
-    allg = groups + rnd
-    batch = 8
-    parts = core.pmap(_many, [(allg[k: k + batch], ctx.seed) for k in range(0, len(allg), batch)])
-    recs = [r for part in parts for r in part]
-    ctx.replayed = n_calls
-    ctx.sample({"record": {k: v for k, v in recs[len(recs) // 2].items() if k != "exc"}})
-    ctx.sample({"record": {k: v for k, v in recs[-1].items() if k != "exc"}})
-    validate(ctx, recs, "C13")
-    ctx.note(f"{len(groups)} enumerated transformers ({n_calls} calls) + {len(rnd)} random transformers -> {len(recs)} records "
-             f"judged by Trace_Dft (class preload on/off, util functions, inversion objects)")
+    for g in rnd:
+        g["util"] = True
+    replay_and_judge(rnd, "C13-random", count=False, last=True)
+    ctx.note(f"{total['groups']} enumerated transformers ({total['calls']} calls) + {len(rnd)} random transformers -> "
+             f"{total['records']} records judged by Trace_Dft (class preload on/off, util functions, inversion objects)")
     ctx.assumptions = [
         "baselines are a*648000/(4*s*pi) for the pixel scale s, so every phase is a quarter turn up to ~1e-15; alpha accepts a "
         "residual of 1e-9 lattice units and rejects anything else (values-on-lattice clause)",
